@@ -41,6 +41,7 @@ type Engine struct {
 	atomicInvs    map[string]*AtomicInv
 	fieldCons     []*FieldConstraint
 	predicates    map[string]*Predicate
+	uninterpretedSpec map[string]bool
 	fieldConByKey map[string]*FieldConstraint
 }
 
@@ -305,6 +306,12 @@ func (e *Engine) addContractFile(cf *ContractFile) {
 	e.pins = append(e.pins, cf.Pins...)
 	for name := range cf.Recursive {
 		e.recursiveSpec[cf.Pkg+"."+name] = true
+	}
+	for name := range cf.Pure {
+		if e.uninterpretedSpec == nil {
+			e.uninterpretedSpec = map[string]bool{}
+		}
+		e.uninterpretedSpec[cf.Pkg+"."+name] = true
 	}
 }
 
